@@ -95,6 +95,9 @@ def render_sec_group(rng, nums, kind, word=None):
     pl = ''
     if w in ('Section', 'Sec', 'Sect') and rng.random() < 0.6:
         pl = 's'
+    elif w in ('Sec.', 'Sect.') and rng.random() < 0.5:
+        # the plural of the abbreviation keeps its period: 'Secs. 14 and 15'
+        w = w[:-1] + 's.'
     # The library reads these words without regard to case; every tenth
     # word comes capitalised or in upper case, the keyword likewise.
     def recase(x):
